@@ -60,7 +60,22 @@ func emitBrackets(c *Ctx) {
 				}
 				return true
 			})
-			startOK = ok && gets == 1
+			// the deferred unlock is the only release: a second Unlock(id) would let go of another request's hold
+			unlocks := 0
+			ast.Inspect(fd.Body, func(n ast.Node) bool {
+				if ce, isCall := n.(*ast.CallExpr); isCall && exprText(c, ce.Fun) == "sessionIDMutexes.Unlock" {
+					unlocks++
+				}
+				return true
+			})
+			locks := 0
+			ast.Inspect(fd.Body, func(n ast.Node) bool {
+				if ce, isCall := n.(*ast.CallExpr); isCall && exprText(c, ce.Fun) == "sessionIDMutexes.Lock" {
+					locks++
+				}
+				return true
+			})
+			startOK = ok && gets == 1 && unlocks == 1 && locks == 1
 			only24 = gets == 1
 		}
 	}
